@@ -104,6 +104,26 @@ class DiskGen(Gen):
         k = self.sch.cls(op['kind'])['kind']
         refs = self.sch.referential(k)
         npos = len(op['args'])
+        comp = [(n, t) for n, t in self.sch.attrs(k)
+                if n not in refs and n in self.sch.identifying(k) and t.upper() in ('INTEGER', 'STRING')]
+        if len(comp) >= 2 and len(set(t.upper() for _, t in comp)) == 1 and self.rng.random() < 0.7:
+            # a compound key of one type: small shared domain, so that keys are permutations of each other
+            have = set(tuple(self.ref.read_or_none(h, n) for n, _ in comp) for h in self.live_of(k))
+            for _ in range(20):
+                tup = tuple(self.rng.randint(1, 3) if t.upper() == 'INTEGER' else 'v%d' % self.rng.randint(1, 3)
+                            for _, t in comp)
+                if tup not in have:
+                    break
+            else:
+                tup = None
+            if tup is not None:
+                for (n, t), v in zip(comp, tup):
+                    pos = [a for a, _ in self.sch.attrs(k)].index(n)
+                    if pos < npos:
+                        op['args'][pos] = v
+                    else:
+                        op['kw'] = [kv for kv in op['kw'] if kv[0].upper() != n.upper()] + [[n, v]]
+                return op
         for pos, (name, ty) in enumerate(self.sch.attrs(k)):
             if name in refs or name not in self.sch.identifying(k) or ty.upper() == 'UNIQUE_ID':
                 continue
@@ -413,7 +433,7 @@ class DiskExec(Exec):
         k0 = ent.k - 1
         seed = self.case['seed']
         ref.idgen = refstore.RefSequenceGen(lambda k: seams.entropy_value(seed, k0 + k))
-        self.extra['has_peek'] = hasattr(w.gen, 'peek')
+        self.extra['has_peek'] = callable(getattr(w.gen, 'peek', None))
         ref.adopted.clear()
 
     def normalise_reference(self):
